@@ -11,7 +11,8 @@
    [vec_known ms] = ~ seqp ms; [voff v] offset of a view in its root,
    [vclamp v x] x clamped by the end bounds of the slices of v. *)
 From Compio.Model Require Import Base Buf.
-From Compio.Thm Require Import BufThm.
+From Compio.Gen Require Frag.
+From Compio.Thm Require Import BufThm FragBufThm.
 
 (* (a) the contract: for EVERY root kind/length/capacity and EVERY nesting of
    slice / uninit views that is well-constructed, outside the known class: both
@@ -312,3 +313,23 @@ Proof.
   eexists. split; vm_compute; reflexivity.
 Qed.
 Print Assumptions C10_nonvacuous_vectored.
+
+
+(* ---- source tie of the slice arithmetic (translated from compio-buf/src/slice.rs
+        on every run by tools/rs2v.py into gen/Frag.v) ----
+   Slice<Slice<T>>::flatten, Slice::end_or_len and Slice::end_or_cap as the source
+   has them now are the arithmetic of the model's flatten_view and of sub_range,
+   the one window function every Slice / Uninit layer of as_init / as_uninit uses. *)
+Theorem C10_flatten_is_source : forall v0 lb le sb se,
+  flatten_view (VSlice (VSlice v0 lb le) sb se)
+  = Some (VSlice v0 (fst (Frag.slice_flatten lb le sb se)) (snd (Frag.slice_flatten lb le sb se))).
+Proof. exact flatten_tie. Qed.
+Print Assumptions C10_flatten_is_source.
+
+Theorem C10_slice_window_is_source : forall o l b e,
+  sub_range (o, l) b e
+  = (if b <=? Frag.slice_end_or_len l e then Ok (o + b, Frag.slice_end_or_len l e - b) else Panic P_SLICE_INDEX)
+  /\ Frag.slice_end_or_cap l e = Frag.slice_end_or_len l e
+  /\ Frag.slice_end_or_len l e <= l.
+Proof. exact sub_range_tie. Qed.
+Print Assumptions C10_slice_window_is_source.
